@@ -61,6 +61,24 @@ def models(W):
             return opt(("int", a))
         return opt(None)
 
+    @m("Range<usize> as Iterator: any / all / find_map-free adaptors apply the inlined closure to each index (std contract)")
+    def r_quant(flow, P, callee, args):
+        r = args[0]
+        rg = flow.read(P, r.local, list(r.path)) if isinstance(r, Ref) else r
+        if not (isinstance(rg, tuple) and rg[0] == "agg" and rg[1].endswith("Range") and all(flow.is_int(x) for x in rg[2])):
+            raise Unsupported("any/all on %r" % (rg,))
+        mm = re.search(r"\{closure@([^}]*)\}", callee)
+        c = [f for f in flow.fns.values() if "{closure#" in f.short and f.params and mm and mm.group(1).strip() in f.params[0][1]]
+        if len({f.name for f in c}) != 1:
+            raise Unsupported("closure of " + callee[:80])
+        fn = c[0]
+        res = []
+        for i in range(rg[2][0][1], rg[2][1][1]):
+            first = flow.new_place(P, "pclo", args[1]) if fn.params[0][1].startswith("&") else args[1]
+            res.append(S.truth(flow, flow.inline(P, fn, [first, ("int", i)])))
+        isany = "::any::" in callee
+        return flow.mkbool(P, (z3.Or(res) if isany else z3.And(res)) if res else z3.BoolVal(not isany))
+
     @m("OwnershipChecker::nth_outer_scope(n): the LocalVars of the n-th enclosing scope (0 = current); its path arithmetic is validated natively")
     def nth(flow, P, callee, args):
         n = args[1]
@@ -96,6 +114,7 @@ def models(W):
         (r"^Vec::<(ty::)?vis::Visibility>::len$", v_len),
         (r"^<std::ops::Range<usize> as IntoIterator>::into_iter$", r_into),
         (r"^<std::ops::Range<usize> as Iterator>::next$", r_next),
+        (r"^<std::ops::Range<usize> as Iterator>::(any|all)::", r_quant),
         (r"OwnershipChecker::nth_outer_scope$", nth),
         (r"dict::Dict::<erg_common::Str, erg_common::error::Location>::get::", d_get),
         (r"dict::Dict::<erg_common::Str, erg_common::error::Location>::contains_key::", contains),
